@@ -10,7 +10,7 @@ agrees across stitch / grad / optimiser / backend within tolerance and is not be
 import copy, math
 import numpy as np
 from harness.core import f2b, b2f, fl, unfl
-from harness import counting, gen_spec, enga
+from harness import counting, gen_spec, enga, kkt
 
 RULE = ('random models × fixed masks × POI values for the plumbing (exact); fits on single/multi-bin counting models and random '
         'generated models × datasets (Poisson-fluctuated, zero counts, Asimov) × {scipy, minuit} × backends × do_grad × do_stitch; '
@@ -130,6 +130,28 @@ def run(ctx):
             if abs(fun - ref) > 1e-8 * (1 + abs(ref)):
                 ctx.fail('C05/honest-objective', 'reported objective is not twice_nll at the returned parameters', inp, fun, ref)
             results.append((fun, bk, opt, grad, stitch))
+            # ---- optimality certificate (theorem kkt_certificate) for the affine-rate family
+            if bk == 'numpy' and not stitch:
+                sp = spec if spec is not None else m.spec
+                fmask = [f or (mode == 'fixed_poi' and k == m.config.poi_index) for k, f in enumerate(fixed)]
+                try:
+                    cert = kkt.certificate(pyhf, m, sp, data, pars, fmask, bounds)
+                except Exception as e:  # noqa — a failure of the certificate machinery is not a property violation
+                    cert = None; ctx.tally('kkt', 'error:' + type(e).__name__)
+                if cert is None:
+                    ctx.tally('kkt', 'not-applicable')
+                elif cert['eps'] * cert['width'] > 1e-6 * (1 + abs(fun)):
+                    ctx.tally('kkt', 'weak-certificate')
+                else:
+                    ctx.tally('kkt', 'certified'); ctx.count()
+                    if cert['const_mismatch'] is not None and cert['const_mismatch'] > 1e-7 * (1 + abs(fun)):
+                        ctx.disagree('kkt.objective-constant', inp, 0.0, cert['const_mismatch'], 'pyhf twice_nll minus the affine-model formula is not constant between the fitted and the polished point')
+                    gap = fun - cert['lower']
+                    tol = (2e-3 if opt == 'minuit' else 1e-5) * (1 + abs(fun))
+                    if gap > tol:
+                        ctx.fail('C05/kkt-gap', 'the reported objective exceeds the certified lower bound on the global constrained minimum by more than the optimiser tolerance',
+                                 dict(inp, polished=cert['polished'], eps=cert['eps']), fun, cert['lower'])
+                    ctx.track('kkt_gap_' + opt, gap / (1 + abs(fun))) if hasattr(ctx, 'track') else None
             if kind == 'single':
                 mh = counting.muhat_1(main[0], s, b) if mode == 'free' else poi_val
                 want = counting.two_nll_1(main[0], mh * s + b) + 2 * math.lgamma(main[0] + 1)
